@@ -39,6 +39,16 @@ pub const VERIF_ROOT: &str = "/verif";
 pub fn out_root() -> PathBuf {
     match std::env::var("VERIF_OUT_DIR") {
         Ok(d) if !d.is_empty() => PathBuf::from(d),
+        _ => home_root(),
+    }
+}
+
+/// The directory holding known_findings.json, regressions/ and regressions-known/: the directory of
+/// the `check` script that started this run (so a snapshot of /verif reads its own files), /verif
+/// by default.
+pub fn home_root() -> PathBuf {
+    match std::env::var("VERIF_HOME") {
+        Ok(d) if !d.is_empty() => PathBuf::from(d),
         _ => PathBuf::from(VERIF_ROOT),
     }
 }
@@ -518,7 +528,7 @@ pub struct KnownFinding {
 }
 
 pub fn load_known_findings() -> Vec<KnownFinding> {
-    let p = Path::new(VERIF_ROOT).join("known_findings.json");
+    let p = home_root().join("known_findings.json");
     match std::fs::read(&p) {
         Ok(b) => serde_json::from_slice::<Vec<KnownFinding>>(&b).unwrap_or_else(|e| {
             eprintln!("warning: cannot parse {}: {e}", p.display());
@@ -836,7 +846,7 @@ fn run_parent(check: &Check, tier: Tier) -> i32 {
     }
 
     // Regression tier: every saved case under regressions/<ID>/ is re-executed in strict mode.
-    let reg_dir = Path::new(VERIF_ROOT).join("regressions").join(check.id);
+    let reg_dir = home_root().join("regressions").join(check.id);
     let mut regressions_run = 0u64;
     if let Ok(rd) = std::fs::read_dir(&reg_dir) {
         let mut files: Vec<PathBuf> = rd.flatten().map(|e| e.path()).filter(|p| p.extension().map(|e| e == "json").unwrap_or(false)).collect();
@@ -878,7 +888,7 @@ fn run_parent(check: &Check, tier: Tier) -> i32 {
     for k in mine.iter().filter(|k| k.status == "known") {
         let mut status = String::new();
         if let Some(r) = &k.replay {
-            let path = Path::new(VERIF_ROOT).join(r);
+            let path = home_root().join(r);
             let st = std::process::Command::new(&exe)
                 .arg("replay")
                 .arg(&path)
